@@ -1,8 +1,242 @@
 package main
 
 import (
+	"bytes"
+	"context"
+	"errors"
+	"fmt"
+	"strings"
+
+	"github.com/plgd-dev/go-coap/v3/message"
+	"github.com/plgd-dev/go-coap/v3/message/codes"
+	"github.com/plgd-dev/go-coap/v3/message/pool"
+	"github.com/plgd-dev/go-coap/v3/net/responsewriter"
+	tcpclient "github.com/plgd-dev/go-coap/v3/tcp/client"
+	tcpcoder "github.com/plgd-dev/go-coap/v3/tcp/coder"
+	udpclient "github.com/plgd-dev/go-coap/v3/udp/client"
+
 	"verif/ev"
 	"verif/mcx"
+	"verif/vrt"
+	"verif/worlds/srvw"
+	"verif/worlds/tcpw"
 )
 
-func addStreamServers(r *ev.Run, scs *[]*mcx.Scenario) {}
+// stream servers (tcp/server and dtls/server over a harness Listener): well-behaved connections
+// and adversarial ones {connect-and-stall in handshake, failing handshake, garbage bytes, half a
+// frame then silence, oversize frame, immediate close} interleaved at every position.
+
+type scfg struct {
+	Kind    string // "tcp" | "dtls"
+	Adv     []string
+	Peers   int
+	Preempt int
+	Delay   int
+}
+
+func (c scfg) String() string {
+	return fmt.Sprintf("%s-server peers=%d adversary=[%s] preempt<=%d delays<=%d", c.Kind, c.Peers, strings.Join(c.Adv, ","), c.Preempt, c.Delay)
+}
+
+var streamAdv = []string{"handshake-stall", "handshake-fail", "garbage", "half-frame", "oversize", "connect-close", "peer-close-mid"}
+
+func streamScenario(c scfg) *mcx.Scenario {
+	return &mcx.Scenario{
+		Name:   c.String(),
+		Bounds: mcx.Bounds{Preempt: c.Preempt, Env: 1, Select: 0, Delay: c.Delay},
+		Opt:    vrt.Options{MaxSteps: 600000},
+		Body: func(s *vrt.Sched) func() (string, []mcx.Finding) {
+			var hist []string
+			var fs []mcx.Finding
+			fail := func(sig, format string, a ...any) {
+				fs = append(fs, mcx.Finding{Sig: sig, What: c.String() + ": " + fmt.Sprintf(format, a...) + "; order [" + strings.Join(hist, " ") + "]"})
+			}
+			handled := map[string][]string{}
+			vrt.App("env", func() {
+				var L *srvw.Listener
+				var serveDone func() bool
+				var stop func()
+				const maxSize = 64
+				if c.Kind == "tcp" {
+					t := srvw.NewTCP(srvw.StreamOpts{MaxMsgSize: maxSize, TCPHandler: func(w *responsewriter.ResponseWriter[*tcpclient.Conn], r *pool.Message) {
+						b, _ := r.ReadBody()
+						ra := w.Conn().RemoteAddr().String()
+						handled[ra] = append(handled[ra], string(b))
+						_ = w.SetResponse(codes.Changed, message.TextPlain, bytes.NewReader(append([]byte("echo:"), b...)))
+					}})
+					L, serveDone, stop = t.L, func() bool { return t.ServeDone }, t.S.Stop
+				} else {
+					t := srvw.NewDTLS(srvw.StreamOpts{MaxMsgSize: maxSize, DTLSHandler: func(w *responsewriter.ResponseWriter[*udpclient.Conn], r *pool.Message) {
+						b, _ := r.ReadBody()
+						ra := w.Conn().RemoteAddr().String()
+						handled[ra] = append(handled[ra], string(b))
+						_ = w.SetResponse(codes.Changed, message.TextPlain, bytes.NewReader(append([]byte("echo:"), b...)))
+					}})
+					L, serveDone, stop = t.L, func() bool { return t.ServeDone }, t.S.Stop
+				}
+				ok := func(context.Context) error { return nil }
+				var hs func(context.Context) error
+				if c.Kind == "dtls" {
+					hs = ok
+				}
+				encode := func(i, j int) []byte {
+					pl := fmt.Sprintf("p%d-r%d", i, j)
+					if c.Kind == "tcp" {
+						return tcpw.Encode(message.Message{Code: codes.POST, Token: message.Token{0x10 + byte(i), byte(j)}, Options: message.Options{{ID: message.URIPath, Value: []byte("echo")}}, Payload: []byte(pl)})
+					}
+					return srvw.EncodeUDP(message.Message{Type: message.Confirmable, Code: codes.POST, MessageID: int32(100 + 10*i + j), Token: message.Token{0x10 + byte(i), byte(j)}, Options: message.Options{{ID: message.URIPath, Value: []byte("echo")}}, Payload: []byte(pl)})
+				}
+				peers := make([]*srvw.PeerConn, c.Peers)
+				sent := make([][]string, c.Peers)
+				next := make([]int, c.Peers)
+				ai := 0
+				var advConns []*srvw.PeerConn
+				for {
+					var evs []int
+					for p := 0; p < c.Peers; p++ {
+						if next[p] < 3 { // step 0 = connect, 1..2 = requests
+							evs = append(evs, p)
+						}
+					}
+					if ai < len(c.Adv) {
+						evs = append(evs, c.Peers)
+					}
+					if len(evs) == 0 {
+						break
+					}
+					e := evs[vrt.Choose(len(evs), nil)]
+					if e < c.Peers {
+						if next[e] == 0 {
+							peers[e] = L.Connect(fmt.Sprintf("10.0.0.%d:4000%d", 11+e, e), hs)
+							hist = append(hist, fmt.Sprintf("p%d:connect", e))
+						} else {
+							pl := fmt.Sprintf("p%d-r%d", e, next[e])
+							hist = append(hist, pl)
+							sent[e] = append(sent[e], pl)
+							peers[e].Send(encode(e, next[e]))
+						}
+						next[e]++
+					} else {
+						kind := c.Adv[ai]
+						ai++
+						hist = append(hist, "adv:"+kind)
+						remote := fmt.Sprintf("10.6.6.6:%d", 600+ai)
+						switch kind {
+						case "handshake-stall":
+							advConns = append(advConns, L.Connect(remote, srvw.HandshakeStall))
+						case "handshake-fail":
+							advConns = append(advConns, L.Connect(remote, func(context.Context) error { return errors.New("bad certificate") }))
+						case "garbage":
+							a := L.Connect(remote, hs)
+							a.Send([]byte{0xff, 0xff, 0xff, 0x01, 0x02, 0x03, 0xf0, 0x00})
+							advConns = append(advConns, a)
+						case "half-frame":
+							a := L.Connect(remote, hs)
+							full := encode(9, 9)
+							a.Send(full[:len(full)/2])
+							advConns = append(advConns, a)
+						case "oversize":
+							a := L.Connect(remote, hs)
+							if c.Kind == "tcp" {
+								a.Send([]byte{0xe1, 0x10, 0x00, 0x02, 0xaa, 1, 2, 3})
+							} else {
+								a.Send(bytes.Repeat([]byte{0x40}, maxSize+1))
+							}
+							advConns = append(advConns, a)
+						case "connect-close":
+							a := L.Connect(remote, hs)
+							a.St.PeerClosed = true
+							advConns = append(advConns, a)
+						case "peer-close-mid":
+							a := L.Connect(remote, hs)
+							a.Send(encode(9, 8))
+							a.St.PeerClosed = true
+							advConns = append(advConns, a)
+						}
+					}
+					if vrt.Choose(2, []int8{0, 1}) == 0 {
+						vrt.Quiesce("env: server settles")
+					}
+				}
+				vrt.Quiesce("env: all delivered")
+				if serveDone() {
+					fail("serve-returned", "Serve returned although the server was not stopped")
+				}
+				// a fresh connection must still be accepted and served
+				probe := L.Connect("10.0.0.99:49999", hs)
+				if c.Kind == "tcp" {
+					probe.Send(tcpw.Encode(message.Message{Code: codes.POST, Token: message.Token{0x77}, Options: message.Options{{ID: message.URIPath, Value: []byte("echo")}}, Payload: []byte("probe")}))
+				} else {
+					probe.Send(srvw.EncodeUDP(message.Message{Type: message.Confirmable, Code: codes.POST, MessageID: 9999, Token: message.Token{0x77}, Options: message.Options{{ID: message.URIPath, Value: []byte("echo")}}, Payload: []byte("probe")}))
+				}
+				vrt.Quiesce("env: probe served")
+				if !bytes.Contains(probe.NewBytes(), []byte("echo:probe")) {
+					fail("server-stopped-accepting", "a connection opened after the adversary's activity was not served")
+				}
+				for i, p := range peers {
+					if p == nil {
+						continue
+					}
+					out := p.NewBytes()
+					var got []string
+					if c.Kind == "tcp" {
+						for len(out) > 0 {
+							var m message.Message
+							m.Options = make(message.Options, 0, 8)
+							n, err := tcpcoder.DefaultCoder.Decode(out, &m)
+							if err != nil {
+								fail("server-wrote-garbage", "undecodable bytes written to peer %d", i)
+								break
+							}
+							got = append(got, fmt.Sprintf("%v/%s", m.Code, m.Payload))
+							out = out[n:]
+						}
+					} else if len(out) > 0 {
+						// datagram boundaries are not kept in the byte log: compare by content
+						for _, pl := range sent[i] {
+							if bytes.Contains(out, []byte("echo:"+pl)) {
+								got = append(got, fmt.Sprintf("%v/echo:%s", codes.Changed, pl))
+							}
+						}
+						if n := bytes.Count(out, []byte("echo:")); n != len(sent[i]) {
+							fail("peer-received-differs", "peer %d received %d responses for %d requests", i, n, len(sent[i]))
+						}
+					}
+					var want []string
+					for _, pl := range sent[i] {
+						want = append(want, fmt.Sprintf("%v/echo:%s", codes.Changed, pl))
+					}
+					if fmt.Sprint(got) != fmt.Sprint(want) {
+						fail("peer-received-differs", "peer %d received %v, without the adversary it receives %v", i, got, want)
+					}
+					if h := handled[p.Remote]; fmt.Sprint(h) != fmt.Sprint(sent[i]) {
+						fail("per-peer-order", "requests of peer %d were handled as %v, arrival order %v", i, h, sent[i])
+					}
+				}
+				stop()
+				stop() // idempotent
+				vrt.Quiesce("env: stopped")
+				if !serveDone() {
+					fail("serve-did-not-return-after-stop", "Serve did not return after Stop (a connection goroutine is stuck)")
+				}
+				_ = advConns
+			})
+			return func() (string, []mcx.Finding) { return strings.Join(hist, " "), fs }
+		},
+	}
+}
+
+func addStreamServers(r *ev.Run, scs *[]*mcx.Scenario) {
+	for _, kind := range []string{"tcp", "dtls"} {
+		for _, a := range streamAdv {
+			if kind == "tcp" && strings.HasPrefix(a, "handshake") {
+				continue // plain TCP connections have no handshake; the TLS path is the dtls-style conn with HandshakeContext
+			}
+			*scs = append(*scs, streamScenario(scfg{Kind: kind, Adv: []string{a}, Peers: 2, Delay: ev.Pick(r, 2, 3)}))
+		}
+		*scs = append(*scs, streamScenario(scfg{Kind: kind, Adv: []string{"garbage", "oversize"}, Peers: ev.Pick(r, 1, 2), Delay: 2}))
+		*scs = append(*scs, streamScenario(scfg{Kind: kind, Adv: []string{"half-frame", "connect-close"}, Peers: ev.Pick(r, 1, 2), Delay: 2}))
+		*scs = append(*scs, streamScenario(scfg{Kind: kind, Adv: []string{"garbage"}, Peers: 1, Preempt: 1, Delay: 1}))
+	}
+	*scs = append(*scs, streamScenario(scfg{Kind: "dtls", Adv: []string{"handshake-stall", "handshake-fail"}, Peers: ev.Pick(r, 1, 2), Delay: 2}))
+}
